@@ -377,6 +377,9 @@ func solveAll(e *Exec, res *HarnessResult, prop string, timeoutS int, meta *Harn
 				os.MkdirAll(dir, 0o755)
 				os.WriteFile(filepath.Join(dir, "query.smt2"), []byte(Script(append([]*Term{q}, axioms...), true, "")), 0o644)
 				writeModel(dir, res.Harness, g.id, g.kind, g.site, model, e)
+				if e.conc != nil {
+					e.conc.writeTrace(e, dir, append([]*Term{q}, axioms...), timeoutS)
+				}
 				or.Replay = dir
 				rep := "skipped"
 				if !meta.Conc && meta.Opts["noreplay"] == "" && os.Getenv("VERIF_NOREPLAY") == "" {
